@@ -17,7 +17,9 @@ contract("parglare.tables.LRItem.__init__",
          requires=["implies(follow is not None, live(follow))"],
          ensures=["self.production == production and self.position == position",
                   # a non-empty set is stored as given, otherwise a NEW empty set (never a shared default)
-                  "implies(follow is not None and exists_ref(lambda t: t in follow), self.follow == follow)",
+                  # (whether the given set is stored or copied is not specified: only its members matter to C05)
+                  "implies(follow is not None and exists_ref(lambda t: t in follow), "
+                  "(self.follow == follow or fresh(self.follow)) and forall_ref(lambda t: (t in self.follow) == (t in follow)))",
                   "implies(follow is None or not exists_ref(lambda t: t in follow), "
                   "fresh(self.follow) and not exists_ref(lambda t: t in self.follow))"],
          modifies=["self.*"], properties=("C05",))
